@@ -134,6 +134,9 @@ def _run(ck, m):
             ck.ob('C03.a', fn, '%s:notified' % meth, False,
                   'the %s at %s reaches a return without passing the notification at %s' % (meth, b.loc(bi), b.loc(pts[0])),
                   b.loc(bi))
+        elif b.id.split('::')[-1] in NO_NOTIFY_NEEDED:
+            # the reviewed bookkeeping writer writes the entry itself (its call of the raw writer was inlined): same exception, same reason
+            ck.ob('C03.a', fn, '%s:reviewed-writer' % meth, True, 'reviewed exception: ' + NO_NOTIFY_NEEDED[b.id.split('::')[-1]], b.loc(bi))
         else:
             raw_writers.add(b.id)
             ck.ob('C03.a', fn, '%s:raw-writer' % meth, True,
@@ -583,4 +586,4 @@ def raw_writer_keeps_value(ck, m):
                   'the value handed to the raw writer is the entry\'s own value' if not from_change else
                   '%s stores the value of a Change (%s) through %s, which does not notify: the write is committed — get returns it — and no '
                   'watcher of the key receives a notification for it' % (short(cb.id), from_change, short(rb_.id)), cb.loc(cbi))
-    ck.floor('C03.i', n, 2, 'calls of the raw entry writer')
+    ck.floor('C03.i', n, 1, 'calls of the raw entry writer')
